@@ -109,6 +109,22 @@ def check(ctx):
             findings.append(f)
         if r['sample'] and len(samples) < 8:
             samples.append(r['sample'])
+    # same-instance histories: every module entry of the catalogue is called on inputs of varying batch size,
+    # channel count and spatial size and compared call by call with fresh instances
+    inst_items = [i for i in items if i[0] in entries.MODULE_KINDS]
+    if ctx.quick:
+        inst_items = [i for k, i in enumerate(inst_items) if i[0] in writers or i[0].endswith('none') or k % 3 == 0]
+    inst_cmp = 0
+    for r in pmap(crosslib.w_instance_history, ctx.repo, [(i, ctx.repo) for i in inst_items], ctx.jobs):
+        inst_cmp += r['cmp']
+        diff += r['diff']
+        for f in r['findings']:
+            f['property'] = 'C15'
+            f['key'] = 'C15|%s|%s|%s' % (f['rule'], f['construct'], f['discriminator'])
+            findings.append(f)
+        if r['sample'] and len(samples) < 10:
+            samples.append(r['sample'])
+    hist_cmp += inst_cmp
     sweep, n_files, n_calls = syntactic_sweep(ctx.repo)
     for s in sweep:
         s.update(property='C15', severity='violation', function=None, statement=None, call_path=[], detail=None,
@@ -125,6 +141,7 @@ def check(ctx):
            'samples': samples or [{'note': 'none'}], 'entry_calls': cmp_, 'history_comparisons': hist_cmp,
            'call_sites_swept': n_calls, 'files_swept': n_files,
            'persistent_writers': {k: sorted(v) for k, v in writers.items()}, 'escalated_pair_sequences': esc,
+           'same_instance_history_calls': inst_cmp,
            'shared_state': ['registered filter buffers / parameters of each module (read-only in every call)',
                             'pytorch_wavelets.dtcwt.coeffs.COEFF_CACHE (written by constructors only; idempotent: '
                             'keyed by the table basename, value = the file contents; arrays handed out are copied by '
@@ -137,7 +154,9 @@ def check(ctx):
                           'writes to module attributes, module globals, class or function attributes during a call '
                           'are findings; the call is repeated on the same instance and with requires_grad set, and '
                           'the extracted operator must be identical; call sequences over different modes, shapes, '
-                          'tables and modules in one abstract process are compared call by call with a fresh process; '
+                          'tables and modules in one abstract process are compared call by call with a fresh process; one '
+                          'instance of every module is called on inputs of varying batch size, channel count and size '
+                          'and compared call by call with freshly constructed instances; '
                           'a syntactic sweep over all call sites of the package looks for process-wide torch state '
                           'setters. Thread-safety follows from the absence of shared mutable state (listed).'}
     return Result('other', cov, findings, assumptions=ASSUME + ['PyTorch kernels themselves are thread-safe'])
